@@ -8,11 +8,9 @@ def plan(tier, seed):
     jobs = [{"id": "C12:layout", "module": "vf.opsjobs", "func": "layout_job", "params": dict(Bmax=3 if tier == "quick" else 4, fmax=3)}]
     for B, k, L in ([(2, 3, 2), (1, 2, 2)] if tier == "quick" else [(1, 2, 2), (2, 2, 3), (2, 3, 2), (3, 3, 2), (3, 2, 1)]):
         jobs.append({"id": f"C12:best B={B} k={k}", "module": "vf.opsjobs", "func": "best_job", "params": dict(B=B, k=k, L=L)})
-    envs = ("tsp", "atsp", "cvrp", "sdvrp", "op", "pctsp", "pdp", "mtsp", "mtvrp", "flp", "mcp", "svrp")
+    envs = ("tsp", "atsp", "cvrp", "sdvrp", "op", "pctsp", "pdp", "mtsp", "mtvrp", "flp", "mcp", "svrp", "sampling")
     for e in envs:
-        for B, n, k in ([(2, 4, 2)] if tier == "quick" else [(2, 4, 2), (1, 4, 3), (3, 4, 4), (2, 4, 5)]):
-            if e == "pdp" and k > n // 2:
-                continue
+        for B, n, k in ([(2, 4, 2), (2, 4, 3)] if tier == "quick" else [(2, 4, 2), (1, 4, 3), (3, 4, 4), (2, 4, 5), (3, 4, 2)]):
             jobs.append({"id": f"C12:starts {e} B={B} n={n} k={k}", "module": "vf.opsjobs", "func": "starts_job", "params": dict(env_name=e, B=B, n=n, k=k)})
     from . import C16  # POMO / SymNCO regrouping of rewards and log-likelihoods is decided by the C16 identities
 
@@ -43,4 +41,8 @@ def confirm_witness(rp, resp):
 
 
 def signature(c, rp, resp, text):
-    return {"env": (rp.get("params") or {}).get("env"), "what": re.sub(r"\[[^\]]*\]|\(mask[^)]*\)|\d+", "", text)[:70].strip()}
+    p = rp.get("params") or {}
+    sig = {"env": p.get("env"), "what": re.sub(r"\[[^\]]*\]|\(mask[^)]*\)|\d+", "", text)[:70].strip()}
+    if "mask" in p and "k" in p:  # does every instance of the failing batch have >= k feasible non-depot starts?
+        sig["all_rows_have_k_feasible"] = all(sum(bool(x) for x in row[1:]) >= p["k"] for row in p["mask"])
+    return sig
